@@ -28,6 +28,12 @@ var Metas = map[string]Meta{
 		Technique: "symbolic execution of go/ssa + SMT; native replay",
 		Design:    "DESIGN.md §4 C05",
 	},
+	"C11": {
+		Text:      "The real edf.Encode and edf.Decode (getEncoder/decodeType closures, all leaf codecs, registered struct/named types, atom/reg/error caches) run symbolically on top of an executor-level model of package reflect; the value is symbolic (all bits of every integer/float kind, every byte of strings/binaries/atoms/error texts, identifier fields, cache ids) and shapes are enumerated (lengths 0..8, element counts <=2, nil vs empty, nesting depth 2, lengths 65533..65536 for strings). Assertion: the encoder accepts the value, the decoder returns an equal value of the same dynamic type and an empty tail; unrepresentable values are rejected by the encoder.",
+		Note:      bmcNote + " reflect is modelled by the executor (reflect.Value/Type methods over go/types and executor values, listed under stubs); time.Time, custom marshalers and >4 GiB binaries are outside.",
+		Technique: "symbolic execution of go/ssa with a reflect model + SMT (QF_BV); native replay",
+		Design:    "DESIGN.md §4 C11",
+	},
 	"C14": {
 		Text:      "Two local consumers build every set of <=4 links/monitors on pid/name/alias/event/node targets living on two remote nodes through the real process API (connections are fakes), remote consumers hold links on a local process; then the real RouteNodeDown with the real defaultTargetManager.CleanupNode runs symbolically: exactly one exit/down with ErrNoConnection per relation on the lost node, relations on the other node untouched, relations of the lost node's processes removed, a repeated node-down notifies nobody. (Incarnation checks and frame-level termination are added by the net/proto entries when present in the evidence.)",
 		Note:      bmcNote + " The chain read error -> serve exit -> unregisterConnection -> RouteNodeDown is covered from RouteNodeDown on; in-flight request timeouts rest on the timer stub.",
